@@ -259,8 +259,72 @@ def state_case(rng):
     return {"case": case, "status": "ok"}
 
 
+EXC = r'''
+import json, sys
+from executorlib import Executor
+
+class ScriptError(Exception):
+    pass
+
+class WithFields(ValueError):
+    def __init__(self, code, msg):
+        super().__init__(code, msg)
+        self.code = code
+
+def boom(kind, a, b):
+    import json as _j
+    if kind == 0:
+        raise ScriptError(a, b)
+    if kind == 1:
+        raise WithFields(a, b)
+    if kind == 2:
+        raise KeyError(a)
+    if kind == 3:
+        _j.loads("{bad")
+    if kind == 4:
+        raise FileNotFoundError(2, b)
+    return (a, b)
+
+out = []
+try:
+    with Executor(max_workers=NW, backend="local", block_allocation=BLOCK, disable_dependencies=DISDEP, hostname_localhost=True) as exe:
+        for kind in KINDS:
+            f = exe.submit(boom, kind, 7, "msg")
+            try:
+                out.append(["value", repr(f.result(timeout=60))])
+            except BaseException as e:
+                out.append([type(e).__name__, repr(e.args)])
+            if BLOCK:
+                break          # a failing call ends a block-allocation worker: one call per executor here
+except BaseException:
+    pass                       # leaving the with-block re-raises the failed call's exception (block allocation)
+print(json.dumps(out))
+'''
+
+
+def exc_case(rng):
+    block, disdep = rng.choice([True, False]), rng.choice([True, False])
+    nw = 1 if block else rng.choice([1, 2])      # several block workers + a failing call: known finding D23 (shutdown blocks)
+    kinds = [rng.randrange(0, 6) for _ in range(3)]
+    src = EXC.replace("NW", str(nw)).replace("BLOCK", str(block)).replace("DISDEP", str(disdep)).replace("KINDS", repr(kinds))
+    rc, out, err = _run_script(src, timeout=120)
+    case = {"block_allocation": block, "disable_dependencies": disdep, "max_workers": nw, "kinds": kinds}
+    try:
+        got = json.loads(out.strip().split("\n")[-1])
+    except Exception:  # noqa
+        return {"case": case, "status": "inconclusive", "why": "no result (rc=%s): %s" % (rc, err[-300:])}
+    exp = {0: ["ScriptError", "(7, 'msg')"], 1: ["WithFields", "(7, 'msg')"], 2: ["KeyError", "(7,)"],
+           3: ["JSONDecodeError", None], 4: ["FileNotFoundError", "(2, 'msg')"], 5: ["value", "(7, 'msg')"]}
+    for k, g in zip(kinds, got):
+        e = exp[k]
+        if g[0] != e[0] or (e[1] is not None and g[1] != e[1]):
+            return {"case": case, "status": "fail",
+                    "why": "call raising kind %d: the future reports %s%s, the function raised %s%s" % (k, g[0], g[1], e[0], e[1] or "(...)")}
+    return {"case": case, "status": "ok"}
+
+
 def run_slice(kind, rng, n):
-    fn = {"wire": wire_case, "ghost": ghost_case, "byvalue": byvalue_case, "state": state_case}[kind]
+    fn = {"wire": wire_case, "ghost": ghost_case, "byvalue": byvalue_case, "state": state_case, "exc": exc_case}[kind]
     return [fn(rng) for _ in range(n)]
 
 
